@@ -415,6 +415,21 @@ class Ext:
         return f"<ext {self.name}>"
 
 
+class PyFunc:
+    """Analyser-supplied function value (a symbolic stand-in passed as an argument to interpreted code)."""
+    def __init__(self, name, fn):
+        self.name, self.fn = name, fn
+
+    def __repr__(self):
+        return f"<pyfunc {self.name}>"
+
+
+class Vmapped:
+    """jax.vmap(f): maps over the leading axis of every array argument."""
+    def __init__(self, fn):
+        self.fn = fn
+
+
 class Deriv:
     """jax.grad / jax.jacfwd of a closure w.r.t. positional argument k."""
     def __init__(self, fn, argnum):
@@ -796,6 +811,17 @@ class Interp:
             return Record(f.name, f.fields, vals)
         if isinstance(f, Ext):
             return self.call_ext(f.name, args, kwargs)
+        if isinstance(f, PyFunc):
+            return f.fn(self, args, kwargs)
+        if isinstance(f, Vmapped):
+            arrs = [a for a in args if isinstance(a, Arr)]
+            if not arrs:
+                raise EvalError("vmap without array arguments")
+            k = arrs[0].shape[0]
+            outs = [self.num(self.call(f.fn, [self.getitem(a, i) if isinstance(a, Arr) else a for a in args], kwargs)) for i in range(k)]
+            if all(isinstance(o, Dual) for o in outs):
+                return Arr(outs, (k,))
+            raise EvalError("vmap of a non-scalar function")
         raise EvalError(f"call of {f!r}")
 
     def call_closure(self, f: Closure, args, kwargs):
@@ -902,6 +928,8 @@ class Interp:
             return Deriv(args[0], self.as_int(k))
         if name in ("jax.jit", "jax.custom_jvp", "jax.checkpoint"):
             return args[0]
+        if name == "jax.vmap":
+            return Vmapped(args[0])
         if name == "jax.lax.cond":
             c = self.truth(args[0])
             return self.call(args[1] if c else args[2], list(args[3:]), {})
